@@ -70,7 +70,35 @@ pub proof fn lemma_p10_mono(a: nat, b: nat) requires a <= b ensures p10(a) <= p1
     if a == 0 && b == 0 { } else if a < b { lemma_p10_mono(a, (b - 1) as nat); } else { if a > 0 { lemma_p10_mono((a-1) as nat, (b-1) as nat); } }
 }
 
-/// value returned by the (assumed) Newton solver for y; its closeness to the true root is NOT covered
-pub uninterp spec fn ss_y(offer_pool: nat, ask_pool: nat, offer_amount: nat, amp: u64, ask_precision: u8) -> nat;
+/// D of the two reserves (18-digit fixed point) as calculate_stableswap_d returns it: ASSUMED a deterministic function of its arguments
+pub uninterp spec fn ss_dd(offer_pool: nat, ask_pool: nat, amp: u64, precision: u8) -> nat;
+/// one Newton step for y; None where the checked arithmetic of the real code fails (the swap is rejected)
+pub open spec fn y_step(y: nat, c: nat, b: nat, d: nat) -> Option<nat> {
+    if y * y >= pow256() || y * y + c >= pow256() || y + y >= pow256() || y + y + b >= pow256() || y + y + b < d || y + y + b - d == 0 { None }
+    else { Some((y * y + c) / ((y + y + b - d) as nat)) }
+}
+/// the iteration from `y`: up to `k` further steps, stopping as soon as two successive iterates differ by at most 1; None on an arithmetic
+/// failure or when the steps run out (ConvergeError)
+pub open spec fn y_iter(y: nat, c: nat, b: nat, d: nat, k: nat) -> Option<nat> decreases k {
+    if k == 0 { None } else {
+        match y_step(y, c, b, d) {
+            None => None,
+            Some(yn) => if (yn >= y && yn - y <= 1) || (yn < y && y - yn <= 1) { Some(yn) } else { y_iter(yn, c, b, d, (k - 1) as nat) },
+        }
+    }
+}
+/// what the ask reserve becomes when `offer_amount` joins the offer reserve (all in 18-digit fixed point), in units of 10^-ask_precision:
+/// the y that the documented Newton scheme yields from y = D (c = D^3/(4 x' Ann) floored as (D*D/(2x'))*D/(2 Ann), b = x' + D/Ann,
+/// y <- (y^2 + c)/(2y + b - D), at most 32 steps). Its closeness to the true root of the invariant is NOT covered.
+#[verifier::opaque]
+pub open spec fn ss_y(offer_pool: nat, ask_pool: nat, offer_amount: nat, amp: u64, ask_precision: u8) -> nat {
+    let unit = p10((18 - ask_precision) as nat);
+    let ann = (amp as nat) * 2;
+    let d = ss_dd(offer_pool, ask_pool, amp, ask_precision) / unit;
+    let ps = (offer_pool + offer_amount) / unit;
+    let c = (d * d / (ps * 2)) * d / (ann * 2);
+    let b = ps + d / ann;
+    y_iter(d, c, b, d, 32)->Some_0
+}
 
 pub open spec fn sat_sub(a: nat, b: nat) -> nat { if a >= b { (a - b) as nat } else { 0 } }
